@@ -455,3 +455,757 @@ Section FeaturePass.
       + intros NB. exfalso. apply (NB t Ht B).
   Qed.
 End FeaturePass.
+
+(** ** (b) the class profile *)
+
+(** [d.get(p, {}).get(k, {}).get(card, 0)] *)
+Definition plook (d : pdict) (p k : str) (card : ckey) : N :=
+  match dget d p with
+  | Some m => match dget m k with Some cd => cget cd card | None => 0 end
+  | None => 0
+  end.
+
+(** [p in d and k in d[p]] *)
+Definition pmem (d : pdict) (p k : str) : bool :=
+  match dget d p with Some m => dmem m k | None => false end.
+
+Lemma plook_nil p k card : plook [] p k card = 0.
+Proof. reflexivity. Qed.
+
+Lemma plook_pincr d p k c p' k' c' :
+  plook (pincr d (p, k, c)) p' k' c' =
+  plook d p' k' c' + (if str_eqb p p' && str_eqb k k' && ckey_eqb c c' then 1 else 0).
+Proof.
+  unfold plook, pincr. rewrite dget_dupd. unfold dupd_val.
+  destruct (str_eqb p p') eqn:Ep; cbn [andb]; [|lia].
+  apply str_eqb_eq in Ep. subst p'.
+  destruct (dget d p) as [m|].
+  - rewrite dget_dupd. unfold dupd_val. destruct (str_eqb k k') eqn:Ek; cbn [andb]; [|lia].
+    apply str_eqb_eq in Ek. subst k'. destruct (dget m k) as [cd|].
+    + apply cget_cincr.
+    + rewrite cget_cincr. reflexivity.
+  - rewrite dget_dupd. unfold dupd_val. destruct (str_eqb k k') eqn:Ek; cbn [andb]; [|reflexivity].
+    cbn [dget]. rewrite cget_cincr. reflexivity.
+Qed.
+
+Lemma pmem_pincr d p k c p' k' :
+  pmem (pincr d (p, k, c)) p' k' = pmem d p' k' || (str_eqb p p' && str_eqb k k').
+Proof.
+  unfold pmem, pincr. rewrite dget_dupd. unfold dupd_val.
+  destruct (str_eqb p p') eqn:Ep; cbn [andb]; [|rewrite orb_false_r; reflexivity].
+  apply str_eqb_eq in Ep. subst p'.
+  destruct (dget d p) as [m|]; rewrite dmem_dupd.
+  - apply orb_comm.
+  - cbn. rewrite orb_false_r. reflexivity.
+Qed.
+
+Definition tuple_eqb (x y : str * str * ckey) : bool :=
+  str_eqb (fst (fst x)) (fst (fst y)) && str_eqb (snd (fst x)) (snd (fst y)) && ckey_eqb (snd x) (snd y).
+
+Fixpoint count_tuple (y : str * str * ckey) (l : list (str * str * ckey)) : N :=
+  match l with
+  | [] => 0
+  | x :: r => (if tuple_eqb x y then 1 else 0) + count_tuple y r
+  end.
+
+Lemma count_tuple_app y l1 l2 : count_tuple y (l1 ++ l2) = count_tuple y l1 + count_tuple y l2.
+Proof. induction l1 as [|x l1 IH]; cbn; [reflexivity|]. rewrite IH. lia. Qed.
+
+Lemma plook_fold_pincr l d p k c :
+  plook (fold_left pincr l d) p k c = plook d p k c + count_tuple (p, k, c) l.
+Proof.
+  revert d. induction l as [|[[p0 k0] c0] l IH]; intros d; cbn [fold_left count_tuple]; [lia|].
+  rewrite IH, plook_pincr. unfold tuple_eqb. cbn [fst snd]. lia.
+Qed.
+
+(** every entry of the dictionary carries at least one positive count *)
+Definition pdict_ok (d : pdict) : Prop :=
+  forall p k, pmem d p k = true -> exists card, 0 < plook d p k card.
+
+Lemma pdict_ok_nil : pdict_ok [].
+Proof. intros p k H. discriminate. Qed.
+
+Lemma pdict_ok_pincr d x : pdict_ok d -> pdict_ok (pincr d x).
+Proof.
+  destruct x as [[p k] c]. intros H p' k' Hm. rewrite pmem_pincr in Hm.
+  apply orb_true_iff in Hm. destruct Hm as [Hm|Hm].
+  - destruct (H p' k' Hm) as [card Hc]. exists card. rewrite plook_pincr. lia.
+  - exists c. rewrite plook_pincr, Hm, ckey_eqb_refl. cbn [andb]. lia.
+Qed.
+
+Lemma pdict_ok_fold_pincr l d : pdict_ok d -> pdict_ok (fold_left pincr l d).
+Proof.
+  revert d. induction l as [|x l IH]; intros d H; cbn; [assumption|].
+  apply IH. apply pdict_ok_pincr. assumption.
+Qed.
+
+(** the converse: a positive count means the entry exists *)
+Lemma plook_pos_pmem d p k card : 0 < plook d p k card -> pmem d p k = true.
+Proof.
+  unfold plook, pmem, dmem. destruct (dget d p) as [m|]; [|lia].
+  destruct (dget m k); [reflexivity | lia].
+Qed.
+
+(** *** the 3-tuples of an instance *)
+
+Definition tuples_prop (tau p : str) (m : dict N) : list (str * str * ckey) :=
+  flat_map (fun ke : str * N =>
+              let (k, n) := ke in
+              if str_eqb p tau then [(p, k, CKn 1)]
+              else [(p, k, CKn n); (p, k, CKplus)]) m.
+
+Lemma tuples_of_cons tau p m f :
+  tuples_of tau ((p, m) :: f) = tuples_prop tau p m ++ tuples_of tau f.
+Proof. reflexivity. Qed.
+
+Lemma tuples_prop_cons tau p k n m :
+  tuples_prop tau p ((k, n) :: m) =
+  (if str_eqb p tau then [(p, k, CKn 1)] else [(p, k, CKn n); (p, k, CKplus)]) ++ tuples_prop tau p m.
+Proof. reflexivity. Qed.
+
+Lemma count_tuple_tuples_prop_other_p tau p0 m p k c :
+  str_eqb p0 p = false -> count_tuple (p, k, c) (tuples_prop tau p0 m) = 0.
+Proof.
+  intros E. induction m as [|[k0 n] m IH]; [reflexivity|].
+  rewrite tuples_prop_cons, count_tuple_app, IH.
+  destruct (str_eqb p0 tau); cbn [count_tuple]; unfold tuple_eqb; cbn [fst snd]; rewrite E; reflexivity.
+Qed.
+
+Lemma count_tuple_tuples_prop_notin tau p m k c :
+  ~ In k (dkeys m) -> count_tuple (p, k, c) (tuples_prop tau p m) = 0.
+Proof.
+  induction m as [|[k0 n] m IH]; intros Hn; [reflexivity|].
+  rewrite tuples_prop_cons, count_tuple_app, IH by (intros H; apply Hn; right; assumption).
+  assert (E : str_eqb k0 k = false).
+  { apply str_eqb_neq. intros ->. apply Hn. left. reflexivity. }
+  destruct (str_eqb p tau); cbn [count_tuple]; unfold tuple_eqb; cbn [fst snd];
+    rewrite E, !andb_false_r; reflexivity.
+Qed.
+
+Lemma count_tuple_tuples_prop tau p m k c :
+  NoDup (dkeys m) -> posN m ->
+  count_tuple (p, k, c) (tuples_prop tau p m) = if card_ok tau p c (getN m k) then 1 else 0.
+Proof.
+  induction m as [|[k0 n] m IH]; intros ND PM.
+  - cbn. unfold card_ok. cbn. reflexivity.
+  - cbn [dkeys map fst] in ND. inversion ND as [|? ? Hk0 ND']. subst.
+    inversion PM as [|? ? Hn PM']. subst. cbn [snd] in Hn.
+    rewrite tuples_prop_cons, count_tuple_app.
+    unfold getN. cbn [dget]. destruct (str_eqb k k0) eqn:Ek.
+    + apply str_eqb_eq in Ek. subst k0.
+      rewrite (count_tuple_tuples_prop_notin tau p m k c Hk0).
+      unfold card_ok. assert (Hpos : (0 <? n) = true) by (apply N.ltb_lt; assumption).
+      rewrite Hpos. cbn [andb].
+      destruct (str_eqb p tau); cbn [count_tuple]; unfold tuple_eqb; cbn [fst snd];
+        rewrite !str_eqb_refl; cbn [andb].
+      * rewrite (ckey_eqb_sym (CKn 1) c). destruct (ckey_eqb c (CKn 1)); reflexivity.
+      * destruct c as [m0|]; cbn [ckey_eqb].
+        -- rewrite (N.eqb_sym n m0). destruct (N.eqb m0 n); reflexivity.
+        -- reflexivity.
+    + rewrite (IH ND' PM'). unfold getN.
+      assert (E : str_eqb k0 k = false) by (rewrite str_eqb_sym; assumption).
+      destruct (str_eqb p tau); cbn [count_tuple app]; unfold tuple_eqb; cbn [fst snd];
+        rewrite E, !andb_false_r; cbn [andb]; lia.
+Qed.
+
+Lemma count_tuple_tuples_of_notin tau f p k c :
+  ~ In p (dkeys f) -> count_tuple (p, k, c) (tuples_of tau f) = 0.
+Proof.
+  induction f as [|[p0 m] f IH]; intros Hn; [reflexivity|].
+  rewrite tuples_of_cons, count_tuple_app, IH by (intros H; apply Hn; right; assumption).
+  rewrite count_tuple_tuples_prop_other_p; [reflexivity|].
+  apply str_eqb_neq. intros ->. apply Hn. left. reflexivity.
+Qed.
+
+(** each (p, k) of a well-formed feature dictionary yields the tuples its
+    count allows, once *)
+Lemma count_tuple_tuples_of tau f p k c :
+  feat_wf f ->
+  count_tuple (p, k, c) (tuples_of tau f) = if card_ok tau p c (fget f p k) then 1 else 0.
+Proof.
+  induction f as [|[p0 m] f IH]; intros [ND FA].
+  - cbn. unfold card_ok. cbn. reflexivity.
+  - cbn [dkeys map fst] in ND. inversion ND as [|? ? Hp0 ND']. subst.
+    inversion FA as [|? ? [NDm PM] FA']. subst. cbn [snd] in NDm, PM.
+    rewrite tuples_of_cons, count_tuple_app.
+    unfold fget. cbn [dget]. destruct (str_eqb p p0) eqn:Ep.
+    + apply str_eqb_eq in Ep. subst p0.
+      rewrite (count_tuple_tuples_of_notin tau f p k c Hp0).
+      rewrite (count_tuple_tuples_prop tau p m k c NDm PM). lia.
+    + rewrite count_tuple_tuples_prop_other_p by (rewrite str_eqb_sym; assumption).
+      rewrite IH by (split; assumption). reflexivity.
+Qed.
+
+(** a tuple exists for (p, k) iff the pair is in the feature dictionary *)
+Lemma card_ok_some tau p n : 0 < n -> exists card, card_ok tau p card n = true.
+Proof.
+  intros H. unfold card_ok. apply N.ltb_lt in H. rewrite H. cbn [andb].
+  destruct (str_eqb p tau).
+  - exists (CKn 1). reflexivity.
+  - exists CKplus. reflexivity.
+Qed.
+
+Lemma card_ok_pos tau p card n : card_ok tau p card n = true -> 0 < n.
+Proof. unfold card_ok. intros H. apply andb_true_iff in H. destruct H as [H _]. apply N.ltb_lt. assumption. Qed.
+
+(** *** the class entries *)
+
+Definition cdirect (P : cprofile) (c : str) : pdict :=
+  match dget P c with Some e => c_direct e | None => [] end.
+
+Definition cinverse (P : cprofile) (c : str) : pdict :=
+  match dget P c with Some e => c_inverse e | None => [] end.
+
+Lemma cdirect_for_class d P c0 c :
+  cdirect (annotate_instance_for_class d P c0) c =
+  if str_eqb c0 c then fold_left pincr d (cdirect P c) else cdirect P c.
+Proof.
+  unfold cdirect, annotate_instance_for_class. rewrite dget_dupd. unfold dupd_val.
+  destruct (str_eqb c0 c) eqn:E; [|reflexivity].
+  apply str_eqb_eq in E. subst c0. destruct (dget P c); reflexivity.
+Qed.
+
+Lemma cinverse_for_class d P c0 c :
+  cinverse (annotate_instance_for_class d P c0) c = cinverse P c.
+Proof.
+  unfold cinverse, annotate_instance_for_class. rewrite dget_dupd. unfold dupd_val.
+  destruct (str_eqb c0 c) eqn:E; [|reflexivity].
+  apply str_eqb_eq in E. subst c0. destruct (dget P c); reflexivity.
+Qed.
+
+Lemma cinverse_inv_for_class d P c0 c :
+  cinverse (annotate_instance_inv_for_class d P c0) c =
+  if str_eqb c0 c then fold_left pincr d (cinverse P c) else cinverse P c.
+Proof.
+  unfold cinverse, annotate_instance_inv_for_class. rewrite dget_dupd. unfold dupd_val.
+  destruct (str_eqb c0 c) eqn:E; [|reflexivity].
+  apply str_eqb_eq in E. subst c0. destruct (dget P c); reflexivity.
+Qed.
+
+Lemma cdirect_inv_for_class d P c0 c :
+  cdirect (annotate_instance_inv_for_class d P c0) c = cdirect P c.
+Proof.
+  unfold cdirect, annotate_instance_inv_for_class. rewrite dget_dupd. unfold dupd_val.
+  destruct (str_eqb c0 c) eqn:E; [|reflexivity].
+  apply str_eqb_eq in E. subst c0. destruct (dget P c); reflexivity.
+Qed.
+
+Lemma plook_cdirect_fold_for_class d cs : forall P c p k card,
+  plook (cdirect (fold_left (annotate_instance_for_class d) cs P) c) p k card =
+  plook (cdirect P c) p k card + count_str c cs * count_tuple (p, k, card) d.
+Proof.
+  induction cs as [|c0 cs IH]; intros P c p k card; cbn [fold_left count_str]; [lia|].
+  rewrite IH, cdirect_for_class, (str_eqb_sym c0 c). destruct (str_eqb c c0).
+  - rewrite plook_fold_pincr, N.mul_add_distr_r. lia.
+  - lia.
+Qed.
+
+Lemma cinverse_fold_for_class d cs : forall P c,
+  cinverse (fold_left (annotate_instance_for_class d) cs P) c = cinverse P c.
+Proof.
+  induction cs as [|c0 cs IH]; intros P c; cbn [fold_left]; [reflexivity|].
+  rewrite IH. apply cinverse_for_class.
+Qed.
+
+Lemma plook_cinverse_fold_inv_for_class d cs : forall P c p k card,
+  plook (cinverse (fold_left (annotate_instance_inv_for_class d) cs P) c) p k card =
+  plook (cinverse P c) p k card + count_str c cs * count_tuple (p, k, card) d.
+Proof.
+  induction cs as [|c0 cs IH]; intros P c p k card; cbn [fold_left count_str]; [lia|].
+  rewrite IH, cinverse_inv_for_class, (str_eqb_sym c0 c). destruct (str_eqb c c0).
+  - rewrite plook_fold_pincr, N.mul_add_distr_r. lia.
+  - lia.
+Qed.
+
+Lemma cdirect_fold_inv_for_class d cs : forall P c,
+  cdirect (fold_left (annotate_instance_inv_for_class d) cs P) c = cdirect P c.
+Proof.
+  induction cs as [|c0 cs IH]; intros P c; cbn [fold_left]; [reflexivity|].
+  rewrite IH. apply cdirect_inv_for_class.
+Qed.
+
+(** keys: a class that is already a key of the profile adds none *)
+Lemma dkeys_fold_for_class d cs : forall P,
+  (forall c, In c cs -> In c (dkeys P)) ->
+  dkeys (fold_left (annotate_instance_for_class d) cs P) = dkeys P.
+Proof.
+  induction cs as [|c0 cs IH]; intros P H; cbn [fold_left]; [reflexivity|].
+  assert (E : dkeys (annotate_instance_for_class d P c0) = dkeys P).
+  { unfold annotate_instance_for_class. apply dkeys_dupd_mem. apply dmem_In. apply H. left. reflexivity. }
+  rewrite IH; [assumption|]. intros c Hc. rewrite E. apply H. right. assumption.
+Qed.
+
+Lemma dkeys_fold_inv_for_class d cs : forall P,
+  (forall c, In c cs -> In c (dkeys P)) ->
+  dkeys (fold_left (annotate_instance_inv_for_class d) cs P) = dkeys P.
+Proof.
+  induction cs as [|c0 cs IH]; intros P H; cbn [fold_left]; [reflexivity|].
+  assert (E : dkeys (annotate_instance_inv_for_class d P c0) = dkeys P).
+  { unfold annotate_instance_inv_for_class. apply dkeys_dupd_mem. apply dmem_In. apply H. left. reflexivity. }
+  rewrite IH; [assumption|]. intros c Hc. rewrite E. apply H. right. assumption.
+Qed.
+
+(** the invariant of class entries *)
+Definition centry_ok (inv : bool) (e : centry) : Prop :=
+  pdict_ok (c_direct e) /\ pdict_ok (c_inverse e) /\ (inv = false -> c_inverse e = []).
+
+Definition cprofile_ok (inv : bool) (P : cprofile) : Prop :=
+  Forall (fun ce : str * centry => centry_ok inv (snd ce)) P.
+
+Lemma centry_ok_empty inv : centry_ok inv empty_centry.
+Proof. split; [apply pdict_ok_nil | split; [apply pdict_ok_nil | reflexivity]]. Qed.
+
+Lemma cprofile_ok_fold_for_class inv d cs : forall P,
+  cprofile_ok inv P -> cprofile_ok inv (fold_left (annotate_instance_for_class d) cs P).
+Proof.
+  induction cs as [|c0 cs IH]; intros P H; cbn [fold_left]; [assumption|].
+  apply IH. unfold annotate_instance_for_class. apply Forall_dupd; [assumption | |].
+  - intros e _ [O1 [O2 O3]]. cbn [snd] in *. split; [|split]; cbn; try assumption.
+    apply pdict_ok_fold_pincr. assumption.
+  - intros _. cbn [snd]. split; [|split]; cbn; try reflexivity.
+    + apply pdict_ok_fold_pincr. apply pdict_ok_nil.
+    + apply pdict_ok_nil.
+Qed.
+
+Lemma cprofile_ok_fold_inv_for_class d cs : forall P,
+  cprofile_ok true P -> cprofile_ok true (fold_left (annotate_instance_inv_for_class d) cs P).
+Proof.
+  induction cs as [|c0 cs IH]; intros P H; cbn [fold_left]; [assumption|].
+  apply IH. unfold annotate_instance_inv_for_class. apply Forall_dupd; [assumption | |].
+  - intros e _ [O1 [O2 O3]]. cbn [snd] in *. split; [|split]; cbn; try assumption.
+    + apply pdict_ok_fold_pincr. assumption.
+    + discriminate.
+  - intros _. cbn [snd]. split; [|split]; cbn.
+    + apply pdict_ok_nil.
+    + apply pdict_ok_fold_pincr. apply pdict_ok_nil.
+    + discriminate.
+Qed.
+
+(** *** one instance *)
+
+Lemma plook_cdirect_annotate_instance tau inv P e c p k card :
+  plook (cdirect (annotate_instance tau inv P e) c) p k card =
+  plook (cdirect P c) p k card +
+  count_str c (i_classes e) * count_tuple (p, k, card) (tuples_of tau (i_direct e)).
+Proof.
+  unfold annotate_instance. destruct inv.
+  - rewrite cdirect_fold_inv_for_class. apply plook_cdirect_fold_for_class.
+  - apply plook_cdirect_fold_for_class.
+Qed.
+
+Lemma plook_cinverse_annotate_instance_true tau P e c p k card :
+  plook (cinverse (annotate_instance tau true P e) c) p k card =
+  plook (cinverse P c) p k card +
+  count_str c (i_classes e) * count_tuple (p, k, card) (tuples_of tau (i_inverse e)).
+Proof.
+  unfold annotate_instance.
+  rewrite plook_cinverse_fold_inv_for_class, cinverse_fold_for_class. reflexivity.
+Qed.
+
+Lemma dkeys_annotate_instance tau inv P e :
+  (forall c, In c (i_classes e) -> In c (dkeys P)) ->
+  dkeys (annotate_instance tau inv P e) = dkeys P.
+Proof.
+  intros H. unfold annotate_instance.
+  assert (E := dkeys_fold_for_class (tuples_of tau (i_direct e)) (i_classes e) P H).
+  destruct inv; [|assumption].
+  rewrite dkeys_fold_inv_for_class; [assumption|]. intros c Hc. rewrite E. apply H. assumption.
+Qed.
+
+Lemma cprofile_ok_annotate_instance tau inv P e :
+  cprofile_ok inv P -> cprofile_ok inv (annotate_instance tau inv P e).
+Proof.
+  intros H. unfold annotate_instance. destruct inv.
+  - apply cprofile_ok_fold_inv_for_class. apply cprofile_ok_fold_for_class. assumption.
+  - apply cprofile_ok_fold_for_class. assumption.
+Qed.
+
+(** *** all instances *)
+
+Definition b2n (b : bool) : N := if b then 1 else 0.
+
+Definition build_profile (tau : str) (inv : bool) (ID : idict) (P0 : cprofile) : cprofile :=
+  fold_left (fun P (ie : str * ientry) => annotate_instance tau inv P (snd ie)) ID P0.
+
+Lemma plook_cdirect_build tau inv L : forall P c p k card,
+  Forall (fun ie : str * ientry => feat_wf (i_direct (snd ie))) L ->
+  plook (cdirect (build_profile tau inv L P) c) p k card =
+  plook (cdirect P c) p k card +
+  sumN (map (fun ie : str * ientry =>
+               count_str c (i_classes (snd ie)) *
+               b2n (card_ok tau p card (fget (i_direct (snd ie)) p k))) L).
+Proof.
+  unfold build_profile.
+  induction L as [|ie L IH]; intros P c p k card HW; cbn [fold_left map sumN]; [lia|].
+  inversion HW as [|? ? W HW']. subst.
+  rewrite IH by assumption. rewrite plook_cdirect_annotate_instance.
+  rewrite count_tuple_tuples_of by assumption. unfold b2n. lia.
+Qed.
+
+Lemma plook_cinverse_build_true tau L : forall P c p k card,
+  Forall (fun ie : str * ientry => feat_wf (i_inverse (snd ie))) L ->
+  plook (cinverse (build_profile tau true L P) c) p k card =
+  plook (cinverse P c) p k card +
+  sumN (map (fun ie : str * ientry =>
+               count_str c (i_classes (snd ie)) *
+               b2n (card_ok tau p card (fget (i_inverse (snd ie)) p k))) L).
+Proof.
+  unfold build_profile.
+  induction L as [|ie L IH]; intros P c p k card HW; cbn [fold_left map sumN]; [lia|].
+  inversion HW as [|? ? W HW']. subst.
+  rewrite IH by assumption. rewrite plook_cinverse_annotate_instance_true.
+  rewrite count_tuple_tuples_of by assumption. unfold b2n. lia.
+Qed.
+
+Lemma dkeys_build tau inv L : forall P,
+  (forall ie c, In ie L -> In c (i_classes (snd ie)) -> In c (dkeys P)) ->
+  dkeys (build_profile tau inv L P) = dkeys P.
+Proof.
+  unfold build_profile.
+  induction L as [|ie L IH]; intros P H; cbn [fold_left]; [reflexivity|].
+  assert (E : dkeys (annotate_instance tau inv P (snd ie)) = dkeys P).
+  { apply dkeys_annotate_instance. intros c Hc. apply (H ie c); [left; reflexivity | assumption]. }
+  rewrite IH; [assumption|]. intros ie' c Hie Hc. rewrite E. apply (H ie' c); [right|]; assumption.
+Qed.
+
+Lemma cprofile_ok_build tau inv L : forall P,
+  cprofile_ok inv P -> cprofile_ok inv (build_profile tau inv L P).
+Proof.
+  unfold build_profile.
+  induction L as [|ie L IH]; intros P H; cbn [fold_left]; [assumption|].
+  apply IH. apply cprofile_ok_annotate_instance. assumption.
+Qed.
+
+(** *** initialisation: class keys and class counts *)
+
+Definition stepT (acc : cprofile * ccounts) (c : str) : cprofile * ccounts :=
+  (dset (fst acc) c empty_centry, dset (snd acc) c 0).
+
+Definition stepA (acc : cprofile * ccounts) (c : str) : cprofile * ccounts :=
+  let P := if dmem (fst acc) c then fst acc else dset (fst acc) c empty_centry in
+  let C := if dmem (fst acc) c then snd acc else dset (snd acc) c 0 in
+  (P, dupd C c 0 (fun n => n + 1)).
+
+Lemma init_targets_fold ts : init_targets ts = fold_left stepT ts ([], []).
+Proof. reflexivity. Qed.
+
+Lemma fold_left_concat {A B : Type} (f : A -> B -> A) (ls : list (list B)) : forall a,
+  fold_left (fun a l => fold_left f l a) ls a = fold_left f (List.concat ls) a.
+Proof.
+  induction ls as [|l ls IH]; intros a; cbn; [reflexivity|].
+  rewrite fold_left_app. apply IH.
+Qed.
+
+Lemma init_annotated_fold (I : insts) acc :
+  init_annotated I acc = fold_left stepA (List.concat (map snd I)) acc.
+Proof.
+  unfold init_annotated. rewrite <- fold_left_concat.
+  revert acc. induction I as [|ie I' IH]; intros acc; cbn [fold_left map]; [reflexivity|].
+  apply IH.
+Qed.
+
+(** invariant: same keys in both dictionaries, every profile entry empty *)
+Definition init_inv (acc : cprofile * ccounts) : Prop :=
+  dkeys (fst acc) = dkeys (snd acc) /\
+  Forall (fun ce : str * centry => snd ce = empty_centry) (fst acc).
+
+Lemma add_new_idem l c : add_new (add_new l c) c = add_new l c.
+Proof.
+  unfold add_new. destruct (mem_str c l) eqn:E.
+  - rewrite E. reflexivity.
+  - rewrite mem_str_app. cbn. rewrite str_eqb_refl, orb_true_r. reflexivity.
+Qed.
+
+Lemma add_new_mem l c : mem_str c l = true -> add_new l c = l.
+Proof. intros H. unfold add_new. rewrite H. reflexivity. Qed.
+
+Lemma init_inv_stepT acc c : init_inv acc -> init_inv (stepT acc c).
+Proof.
+  intros [K E]. split; cbn [stepT fst snd].
+  - rewrite !dkeys_dset_add_new, K. reflexivity.
+  - apply Forall_dset; [assumption | reflexivity].
+Qed.
+
+Lemma dkeys_stepT acc c : dkeys (fst (stepT acc c)) = add_new (dkeys (fst acc)) c.
+Proof. cbn. apply dkeys_dset_add_new. Qed.
+
+Lemma init_inv_stepA acc c : init_inv acc -> init_inv (stepA acc c).
+Proof.
+  intros [K E]. unfold stepA. destruct (dmem (fst acc) c) eqn:M; split; cbn [fst snd].
+  - rewrite dkeys_dupd_add_new, <- K. rewrite add_new_mem; [reflexivity|].
+    rewrite <- dmem_mem_str. assumption.
+  - assumption.
+  - rewrite dkeys_dupd_add_new, !dkeys_dset_add_new, add_new_idem, K. reflexivity.
+  - apply Forall_dset; [assumption | reflexivity].
+Qed.
+
+Lemma dkeys_stepA acc c : dkeys (fst (stepA acc c)) = add_new (dkeys (fst acc)) c.
+Proof.
+  unfold stepA. cbn [fst]. destruct (dmem (fst acc) c) eqn:M.
+  - rewrite add_new_mem; [reflexivity|]. rewrite <- dmem_mem_str. assumption.
+  - apply dkeys_dset_add_new.
+Qed.
+
+Lemma getN_stepA acc c c' :
+  init_inv acc ->
+  getN (snd (stepA acc c)) c' = getN (snd acc) c' + (if str_eqb c c' then 1 else 0).
+Proof.
+  intros [K _]. unfold stepA. cbn [snd]. destruct (dmem (fst acc) c) eqn:M.
+  - apply getN_incrN.
+  - change (dupd (dset (snd acc) c 0) c 0 (fun n => n + 1)) with (incrN (dset (snd acc) c 0) c).
+    rewrite getN_incrN. f_equal. unfold getN. rewrite dget_dset.
+    destruct (str_eqb c c') eqn:E; [|reflexivity].
+    apply str_eqb_eq in E. subst c'.
+    assert (H : dget (snd acc) c = None).
+    { apply dget_None. rewrite <- K. apply dmem_false. assumption. }
+    rewrite H. reflexivity.
+Qed.
+
+Lemma fold_stepT_char ts : forall acc,
+  init_inv acc ->
+  init_inv (fold_left stepT ts acc) /\
+  dkeys (fst (fold_left stepT ts acc)) = fold_left add_new ts (dkeys (fst acc)).
+Proof.
+  induction ts as [|c ts IH]; intros acc H; cbn [fold_left]; [split; [assumption | reflexivity]|].
+  destruct (IH (stepT acc c) (init_inv_stepT acc c H)) as [H1 H2]. split; [assumption|].
+  rewrite H2, dkeys_stepT. reflexivity.
+Qed.
+
+Lemma zero_fold_stepT ts : forall acc,
+  Forall (fun kv : str * N => snd kv = 0) (snd acc) ->
+  Forall (fun kv : str * N => snd kv = 0) (snd (fold_left stepT ts acc)).
+Proof.
+  induction ts as [|c ts IH]; intros acc H; cbn [fold_left]; [assumption|].
+  apply IH. cbn [stepT snd]. apply Forall_dset; [assumption | reflexivity].
+Qed.
+
+Lemma getN_all_zero (C : dict N) c : Forall (fun kv : str * N => snd kv = 0) C -> getN C c = 0.
+Proof.
+  intros H. unfold getN. destruct (dget C c) as [n|] eqn:E; [|reflexivity].
+  apply dget_In in E. rewrite Forall_forall in H. apply (H (c, n)). assumption.
+Qed.
+
+Lemma fold_stepA_char cs : forall acc,
+  init_inv acc ->
+  init_inv (fold_left stepA cs acc) /\
+  dkeys (fst (fold_left stepA cs acc)) = fold_left add_new cs (dkeys (fst acc)) /\
+  forall c, getN (snd (fold_left stepA cs acc)) c = getN (snd acc) c + count_str c cs.
+Proof.
+  induction cs as [|c0 cs IH]; intros acc H; cbn [fold_left].
+  - split; [assumption|]. split; [reflexivity|]. intros c. cbn. lia.
+  - destruct (IH (stepA acc c0) (init_inv_stepA acc c0 H)) as [H1 [H2 H3]].
+    split; [assumption|]. split.
+    + rewrite H2, dkeys_stepA. reflexivity.
+    + intros c. rewrite H3, getN_stepA by assumption. cbn [count_str].
+      rewrite (str_eqb_sym c0 c). lia.
+Qed.
+
+Lemma class_count_concat (I : insts) c : class_count I c = count_str c (List.concat (map snd I)).
+Proof.
+  unfold class_count. induction I as [|[i cs] I' IH]; cbn [map sumN List.concat snd]; [reflexivity|].
+  rewrite count_str_app, IH, count_in_count_str. reflexivity.
+Qed.
+
+(** the initial profile and the class counts *)
+Lemma init_char (targets : list str) (I : insts) P0 C0 :
+  init_annotated I (init_targets targets) = (P0, C0) ->
+  dkeys P0 = class_keys targets I /\
+  dkeys C0 = dkeys P0 /\
+  Forall (fun ce : str * centry => snd ce = empty_centry) P0 /\
+  (forall c, getN C0 c = class_count I c) /\
+  (forall c, In c (dkeys P0) -> dget C0 c = Some (class_count I c)).
+Proof.
+  rewrite init_annotated_fold, init_targets_fold. intros E.
+  assert (H0 : init_inv (([], []) : cprofile * ccounts)) by (split; [reflexivity | constructor]).
+  destruct (fold_stepT_char targets _ H0) as [HT KT].
+  pose proof (zero_fold_stepT targets ([], []) (Forall_nil _)) as ZT.
+  destruct (fold_stepA_char (List.concat (map snd I)) _ HT) as [[KA EA] [KK GN]].
+  rewrite E in *. cbn [fst snd] in *.
+  assert (Keys : dkeys P0 = class_keys targets I).
+  { rewrite KK, KT. cbn [dkeys map]. rewrite <- fold_left_app.
+    unfold class_keys. rewrite uniq_first_first_occ. apply first_occ_fold. }
+  assert (Cnt : forall c, getN C0 c = class_count I c).
+  { intros c. rewrite GN, class_count_concat. rewrite (getN_all_zero _ c ZT). lia. }
+  split; [assumption|]. split; [symmetry; assumption|]. split; [assumption|]. split; [assumption|].
+  intros c Hc. rewrite KA in Hc. apply In_dkeys_dget in Hc. destruct Hc as [n [Hn _]].
+  specialize (Cnt c). unfold getN in Cnt. rewrite Hn in Cnt. rewrite Hn, Cnt. reflexivity.
+Qed.
+
+(** *** the profile before cleaning *)
+
+Definition targets_of (c : pcfg) : list str :=
+  match p_targets c with Some l => l | None => [] end.
+
+(** [P1] and [C0] of [profile], given the result [ID] of the feature pass *)
+Definition raw_profile (c : pcfg) (I : insts) (ID : idict) : cprofile * ccounts :=
+  let '(P0, C0) := init_annotated I (init_targets (targets_of c)) in
+  (build_profile (p_tau c) (p_inverse c) ID P0, C0).
+
+Lemma profile_unfold c I g :
+  profile c I g =
+  match annotate_all (p_tau c) (p_inverse c) g (adapt I) with
+  | inr e => inr e
+  | inl ID =>
+    let '(P1, C0) := raw_profile c I ID in
+    if p_remove_empty c then
+      match clean_profile (S (List.length P1)) (p_inverse c) (orig_labels c) P1 with
+      | inl P2 => inl (P2, C0, ID)
+      | inr e => inr e
+      end
+    else inl (P1, C0, ID)
+  end.
+Proof.
+  unfold profile, raw_profile, targets_of, build_profile.
+  destruct (init_annotated I (init_targets match p_targets c with Some l => l | None => [] end)) as [P0 C0].
+  reflexivity.
+Qed.
+
+Lemma cdirect_empty P c :
+  Forall (fun ce : str * centry => snd ce = empty_centry) P -> cdirect P c = [] /\ cinverse P c = [].
+Proof.
+  intros H. unfold cdirect, cinverse. destruct (dget P c) as [e|] eqn:E; [|split; reflexivity].
+  apply dget_In in E. rewrite Forall_forall in H. specialize (H (c, e) E). cbn in H. subst e.
+  split; reflexivity.
+Qed.
+
+Lemma In_concat_map_snd (I : insts) i cs c : In (i, cs) I -> In c cs -> In c (List.concat (map snd I)).
+Proof.
+  intros Hi Hc. apply in_concat. exists cs. split; [|assumption].
+  apply in_map_iff. exists (i, cs). split; [reflexivity | assumption].
+Qed.
+
+Lemma sumN_b2n_pos {A : Type} (w : A -> N) (b : A -> bool) l :
+  0 < sumN (map (fun x => w x * b2n (b x)) l) <-> exists x, In x l /\ 0 < w x /\ b x = true.
+Proof.
+  rewrite sumN_pos_ex. split.
+  - intros [y [Hy Py]]. apply in_map_iff in Hy. destruct Hy as [x [<- Hx]].
+    exists x. split; [assumption|]. destruct (b x); cbn in Py; [split; [lia | reflexivity] | lia].
+  - intros [x [Hx [Pw Hb]]]. exists (w x * b2n (b x)). split.
+    + apply in_map_iff. exists x. auto.
+    + rewrite Hb. cbn. lia.
+Qed.
+
+(** [occ] as the sum the model computes *)
+Lemma occ_as_sum dir tau I G c p k card :
+  occ dir tau I G c p k card =
+  sumN (map (fun ie : str * list str =>
+               count_str c (snd ie) * b2n (card_ok tau p card (cnt dir tau I G (fst ie) p k))) I).
+Proof.
+  unfold occ. apply sumN_map_ext. intros ie _.
+  rewrite count_in_count_str. destruct (card_ok tau p card _); cbn; lia.
+Qed.
+
+(** an [occ] is positive for some cardinality iff some instance of the class
+    has the key at all *)
+Lemma occ_pos_iff dir tau I G c p k :
+  (exists card, 0 < occ dir tau I G c p k card) <->
+  (exists i cs, In (i, cs) I /\ In c cs /\ 0 < cnt dir tau I G i p k).
+Proof.
+  split.
+  - intros [card H]. rewrite occ_as_sum in H.
+    apply (sumN_b2n_pos (fun ie : str * list str => count_str c (snd ie))
+                        (fun ie => card_ok tau p card (cnt dir tau I G (fst ie) p k))) in H.
+    destruct H as [[i cs] [Hi [Hw Hb]]]. cbn [fst snd] in *.
+    exists i, cs. split; [assumption|]. split; [apply count_str_pos; assumption|].
+    apply card_ok_pos in Hb. assumption.
+  - intros [i [cs [Hi [Hc Hn]]]]. destruct (card_ok_some tau p _ Hn) as [card Hk].
+    exists card. rewrite occ_as_sum.
+    apply (sumN_b2n_pos (fun ie : str * list str => count_str c (snd ie))
+                        (fun ie => card_ok tau p card (cnt dir tau I G (fst ie) p k))).
+    exists (i, cs). cbn [fst snd]. split; [assumption|]. split; [apply count_str_pos; assumption | assumption].
+Qed.
+
+Lemma occ_over_ID dir tau I G c p k card (ID : idict) :
+  dmapv i_classes ID = I ->
+  occ dir tau I G c p k card =
+  sumN (map (fun ie : str * ientry =>
+               count_str c (i_classes (snd ie)) *
+               b2n (card_ok tau p card (cnt dir tau I G (fst ie) p k))) ID).
+Proof.
+  intros HC. rewrite occ_as_sum.
+  set (h := fun ie : str * list str => count_str c (snd ie) * b2n (card_ok tau p card (cnt dir tau I G (fst ie) p k))).
+  transitivity (sumN (map h (dmapv i_classes ID))); [rewrite HC; reflexivity|].
+  unfold dmapv. rewrite map_map. reflexivity.
+Qed.
+
+Section ProfileCounts.
+  Variables (cfg : pcfg) (I : insts) (G : graph).
+  Let tau := p_tau cfg.
+  Let inv := p_inverse cfg.
+
+  (** *** (b) the raw profile contains exactly the declarative counts *)
+  Theorem profile_counts_char ID P1 C0 :
+    NoDup (dkeys I) ->
+    annotate_all tau inv G (adapt I) = inl ID ->
+    raw_profile cfg I ID = (P1, C0) ->
+    dkeys P1 = class_keys (targets_of cfg) I /\
+    dkeys C0 = dkeys P1 /\
+    NoDup (dkeys P1) /\
+    (forall c, In c (dkeys P1) -> dget C0 c = Some (class_count I c)) /\
+    forall c e, dget P1 c = Some e ->
+      (forall p k card, plook (c_direct e) p k card = occ Direct tau I G c p k card) /\
+      (forall p k, pmem (c_direct e) p k = true <-> exists card, 0 < occ Direct tau I G c p k card) /\
+      (if inv
+       then (forall p k card, plook (c_inverse e) p k card = occ Inverse tau I G c p k card) /\
+            (forall p k, pmem (c_inverse e) p k = true <-> exists card, 0 < occ Inverse tau I G c p k card)
+       else c_inverse e = []).
+  Proof.
+    intros NDI HA HR. unfold raw_profile in HR.
+    destruct (init_annotated I (init_targets (targets_of cfg))) as [P0 C0'] eqn:HI.
+    injection HR as HP1 HC0. subst C0'. fold tau inv in HP1. subst P1.
+    set (P1 := build_profile tau inv ID P0).
+    destruct (init_char _ _ _ _ HI) as [KP [KC [EP [_ CC]]]].
+    destruct (annotate_all_char tau inv I G ID HA) as [HC [HK HE]].
+    assert (NDID : NoDup (dkeys ID)) by (rewrite HK; assumption).
+    (* entries of ID seen through dget *)
+    assert (HIn : forall ie, In ie ID -> dget ID (fst ie) = Some (snd ie)).
+    { intros [i e] Hie. apply In_dget_NoDup; assumption. }
+    assert (WD : Forall (fun ie : str * ientry => feat_wf (i_direct (snd ie))) ID).
+    { apply Forall_forall. intros ie Hie. destruct (HE _ _ (HIn ie Hie)) as [_ [W _]]. assumption. }
+    assert (WI : Forall (fun ie : str * ientry => feat_wf (i_inverse (snd ie))) ID).
+    { apply Forall_forall. intros ie Hie. destruct (HE _ _ (HIn ie Hie)) as [_ [_ [W _]]]. assumption. }
+    (* keys *)
+    assert (KP1 : dkeys P1 = dkeys P0).
+    { apply dkeys_build. intros [i e] c Hie Hc. cbn [snd] in Hc.
+      rewrite KP. unfold class_keys. rewrite uniq_first_first_occ. apply In_first_occ.
+      apply in_or_app. right. apply (In_concat_map_snd I i (i_classes e)); [|assumption].
+      rewrite <- HC. unfold dmapv. apply in_map_iff. exists (i, e). split; [reflexivity | assumption]. }
+    split; [rewrite KP1; assumption|]. split; [rewrite KP1; assumption|].
+    split. { rewrite KP1, KP. unfold class_keys. rewrite uniq_first_first_occ. apply NoDup_first_occ. }
+    split. { intros c Hc. apply CC. rewrite <- KP1. assumption. }
+    intros c e He.
+    assert (OK : cprofile_ok inv P1).
+    { apply cprofile_ok_build. apply Forall_forall. intros ce Hce.
+      rewrite Forall_forall in EP. rewrite (EP ce Hce). apply centry_ok_empty. }
+    assert (OKe : centry_ok inv e).
+    { unfold cprofile_ok in OK. rewrite Forall_forall in OK. apply (OK (c, e)). apply dget_In. assumption. }
+    destruct OKe as [O1 [O2 O3]].
+    destruct (cdirect_empty P0 c EP) as [D0 I0].
+    (* the sums over ID and over I agree *)
+    assert (SumD : forall p k card,
+      plook (c_direct e) p k card = occ Direct tau I G c p k card).
+    { intros p k card.
+      assert (Ee : c_direct e = cdirect P1 c) by (unfold cdirect; rewrite He; reflexivity).
+      rewrite Ee. unfold P1. rewrite plook_cdirect_build by assumption. rewrite D0, plook_nil, N.add_0_l.
+      rewrite (occ_over_ID Direct tau I G c p k card ID HC).
+      apply sumN_map_ext. intros ie Hie. destruct (HE _ _ (HIn ie Hie)) as [_ [_ [_ [F _]]]].
+      rewrite F. reflexivity. }
+    split; [exact SumD|]. split.
+    { intros p k. split.
+      - intros Hm. destruct (O1 p k Hm) as [card Hc]. exists card. rewrite <- SumD. assumption.
+      - intros [card Hc]. apply (plook_pos_pmem _ _ _ card). rewrite SumD. assumption. }
+    destruct inv eqn:Einv; [|apply O3; reflexivity].
+    assert (SumI : forall p k card,
+      plook (c_inverse e) p k card = occ Inverse tau I G c p k card).
+    { intros p k card.
+      assert (Ee : c_inverse e = cinverse P1 c) by (unfold cinverse; rewrite He; reflexivity).
+      rewrite Ee. unfold P1. rewrite plook_cinverse_build_true by assumption. rewrite I0, plook_nil, N.add_0_l.
+      rewrite (occ_over_ID Inverse tau I G c p k card ID HC).
+      apply sumN_map_ext. intros ie Hie. destruct (HE _ _ (HIn ie Hie)) as [_ [_ [_ [_ [_ [F _]]]]]].
+      rewrite F. reflexivity. }
+    split; [exact SumI|].
+    intros p k. split.
+    - intros Hm. destruct (O2 p k Hm) as [card Hc]. exists card. rewrite <- SumI. assumption.
+    - intros [card Hc]. apply (plook_pos_pmem _ _ _ card). rewrite SumI. assumption.
+  Qed.
+End ProfileCounts.
